@@ -19,8 +19,9 @@ func c17Strings(thorough bool) []string {
 	times := []string{"00:00:00", "01:30:00", "02:30:00", "03:30:00", "06:30:00", "12:34:56", "23:59:59"}
 	fracs := []string{"", ".5", ".12", ".123", ".1234", ".12345", ".123456", ".1234567", ".12345678", ".123456789", ".999999", ".9999995", ".9999999", ".0000005", ".999"}
 	offs := []string{"-12", "-12:00", "-04", "-04:00", "-03:30", "Z", "+00", "+00:00", "+05:30", "+14", "+14:00", "+01"}
+	fracs = append(fracs, ",5", ",123456789", ",9999995")
 	if !thorough {
-		fracs = []string{"", ".5", ".123", ".123456", ".1234567", ".123456789", ".9999995", ".999"}
+		fracs = []string{"", ".5", ".123", ".123456", ".1234567", ".123456789", ".9999995", ".999", ",5", ",1234567", ",9999995"}
 		offs = []string{"-12", "-04:00", "-03:30", "Z", "+00", "+05:30", "+14:00"}
 	}
 	var out []string
@@ -196,6 +197,21 @@ func c17Compare(c Case) *Failure {
 		}
 		if rc.declined == "" && o != want {
 			return &Failure{Sig: fmt.Sprintf("C17/compare/%s/%s=%s-want-%s/%s/%s", kinds, op, o, want, tzTag, zoneClass(c.Zone)), Expected: want, Observed: o + ": " + detail}
+		}
+		// the tz-required error is an error wherever the comparison stands: negated, under a connective
+		// whose other operand does not decide, and as a filter condition
+		if o == "E" && op == "<" {
+			for _, wrap := range []string{"!(%s)", "!(!(%s))", "(%s) && (1 == 1)", "(1 == 2) || (%s)", "!((%s) || (1 == 2))", "$ ? (!(%s))", "exists($ ? (%s))"} {
+				text := strings.Replace(wrap, "%s", "$a."+x.m+"() "+op+" $b."+y.m+"()", 1)
+				pw, perr, ppan := parseCached(text)
+				if perr != nil || ppan != "" {
+					return &Failure{Sig: "C17/harness/wrapped-comparison-does-not-parse", Expected: "parses", Observed: text}
+				}
+				ow := implQuery(pw, nil, runCfg{vars: map[string]any{"a": x.s, "b": y.s}, tz: c.TZ, zone: c.Zone})
+				if ow.Class != "hard" {
+					return &Failure{Sig: "C17/compare/tz-error-lost/" + kinds + "/" + strings.Replace(wrap, "%s", "C", 1), Expected: "the tz-required error of " + detail, Observed: text + " => " + ow.String()}
+				}
+			}
 		}
 		// duality
 		m, _ := c17CmpObserve(y, x, map[string]string{"<": ">", ">": "<", "<=": ">=", ">=": "<=", "==": "==", "!=": "!="}[op], c.TZ, c.Zone, "")
